@@ -389,7 +389,7 @@ def _delete_works():
 
 def obligations(tier):
     quick = tier == "quick"
-    budget = 240 if quick else 3000
+    budget = 600 if quick else 3000
     fields = ["value", "a"] if quick else FIELDS
     names = NAMES if not quick else ["value", "a", "c", "_p", "x-y", "_show", "a\n"]
     names2 = names if not quick else ["a", "c", "_p"]
